@@ -2,7 +2,7 @@
    Only statements, closed by [exact lemma], with Print Assumptions beneath. *)
 From Coq Require Import String List NArith Bool Permutation.
 From J5V.lib Require Import Outcome.
-From J5V.model Require Import Pipeline PipelineCorr.
+From J5V.model Require Import Pipeline PipelineCompile PipelineCorr.
 From J5V.gen Require SwaggerGen.
 From J5V.lib Require Strcase.
 From J5V.proofs Require Import PipelineProofs PipelineStrcaseProofs StrcaseProofs PipelineChainProofs.
